@@ -164,4 +164,27 @@ def fileOpsVoc : List (String × String) := [
   ("snapshot_manager.create_snapshot", "commit"),
   ("metadata_manager.commit", "commit")]
 
+/-! ### Reader: `Table._get_all_data_files` -/
+
+/-- `Reader`'s `twoRefreshes` switch as the source has it: more than one pointer resolution inside one read -/
+def twoRefreshesOf (getAll : List String) : Bool :=
+  decide (1 < (getAll.filter (fun e => e == "metadata_manager.refresh" || e == "refresh" ||
+                                      e == "metadata_manager._read_version_hint" || e == "metadata_manager._current_version_info")).length)
+
+/-! ### Lock: the S3 lock's requests -/
+
+def s3Voc : List (String × String) := [
+  ("s3.get_object[Bucket,Key]", "get"),
+  ("s3.head_object[Bucket,Key]", "head"),
+  ("s3.delete_object[Bucket,Key]", "delete"),
+  ("s3.delete_object[Bucket,IfMatch,Key]", "deleteIfMatch"),
+  ("s3.put_object[Body,Bucket,IfNoneMatch,Key]", "createIfAbsent"),
+  ("s3.put_object[Body,Bucket,IfMatch,Key]", "replaceIfMatch"),
+  ("s3.put_object[Body,Bucket,Key]", "putUnconditional")]
+
+/-- `Lock`'s `conditionalDelete` switch as the source has it: release removes the lock object with an If-Match delete only -/
+def conditionalDeleteOf (release : List String) : Bool :=
+  let p := project s3Voc release
+  p.contains "deleteIfMatch" && !p.contains "delete"
+
 end DSV.Skel
